@@ -270,6 +270,15 @@ pub fn gen_case(rng: &mut Rng, corpus: &[(String, Vec<u8>)], idx: usize) -> CliC
         minimal = idx % 3 == 2;
         threshold = None;
     }
+    // a threshold that is not a number, or lies just outside [0, 1], with otherwise valid switches and existing files:
+    // rejected before anything is read
+    if idx == 14 || idx == 26 || idx % 97 == 83 {
+        threshold = Some(rng.pick(&["NaN", "nan", "inf", "-inf", "1.0000001", "-0.0000001"]).to_string());
+        args_files = files.iter().map(|f| f.0.clone()).collect();
+        normalize = idx % 2 == 1;
+        replace = false;
+        force = false;
+    }
     // a Big5 file with sequences that decode to two characters each: what gets written is still the whole text
     if idx == 13 || idx == 25 || idx % 97 == 71 {
         let content = big5_two_codepoint_text(rng);
@@ -645,6 +654,25 @@ pub fn run(prop: &'static str, thorough: bool, seed: u64) -> Report {
                         };
                         if entries.len() == 1 && !stdout.trim_start().starts_with('{') || entries.len() != 1 && !stdout.trim_start().starts_with('[') {
                             rep.fail("oracle", "C16:wrong-top-level-shape", &desc, stdout.as_bytes(), None, "json");
+                        }
+                        // as many entries per input as the library has to report: all its matches with --with-alternative
+                        // (one "undefined" entry if it has none), the best one otherwise
+                        if !case.normalize {
+                            for nm in &case.args_files {
+                                if case.args_files.iter().filter(|x| *x == nm).count() != 1 {
+                                    continue;
+                                }
+                                if let Some(src) = before.get(nm) {
+                                    if let Ok(Ok(ms)) = real_detect_raw(src, &sett) {
+                                        let want = if case.alternatives { ms.len().max(1) } else { 1 };
+                                        let got = entries.iter().filter(|e| Path::new(e["path"].as_str().unwrap_or("")).file_name().map(|x| x.to_string_lossy() == nm.as_str()).unwrap_or(false)).count();
+                                        rep.count("oracle:entries-per-input");
+                                        if got != want {
+                                            rep.fail("oracle", "C16:number-of-entries-differs-from-library", &format!("{} || {}: {} entries in the report, the library has {} to report", desc, nm, got, want), src, None, "json");
+                                        }
+                                    }
+                                }
+                            }
                         }
                         for e in &entries {
                             let path = e["path"].as_str().unwrap_or("").to_string();
